@@ -319,6 +319,9 @@ var c07Targets = []struct {
 			*c07T `config:",inline"`
 		}{}
 	}},
+	{"*struct{named pointer}", func() interface{} { return &struct{ A c07NPtr }{} }},
+	{"*struct{pointer to named pointer}", func() interface{} { return &struct{ A *c07NPtr }{} }},
+	{"*map[string]named pointer", func() interface{} { m := map[string]c07NPtr{}; return &m }},
 	{"*uintptr", func() interface{} { var u uintptr; return &u }},
 	{"*complex", func() interface{} { var c complex64; return &c }},
 	{"unsafe-ish reflect.Value", func() interface{} { v := reflect.ValueOf(1); return &v }},
